@@ -27,13 +27,26 @@ def run(ctx):
     nsess = ctx.n(110, 1200)
     lines, meta = [], []
     for si in range(nsess):
-        pf = r.choice(ACCEPTED_PF)
+        # the server's native format: one the client accepts, or (1 in 5) one it does not - then the format in force is
+        # the one the client asks for with SetPixelFormat, and a conforming server encodes in that from then on
+        native = r.choice(ACCEPTED_PF) if r.random() < .8 else r.choice(ODD_PF)
         w0, h0 = r.choice([1, 16, 64, 100]), r.choice([1, 16, 64, 100])
         opts = {"nocursor": True} if r.random() < .5 else {}
         c, trace, zlog = new_client("lib", **opts)
-        hs = b"RFB 003.008\n" + bytes([1, 1]) + struct.pack("!I", 0) + server_init(w0, h0, pf, b"d")
+        hs = b"RFB 003.008\n" + bytes([1, 1]) + struct.pack("!I", 0) + server_init(w0, h0, native, b"d")
         chunks = [hs]
         feed_impl(c, trace, [hs])
+        pf = native
+        for t in trace:
+            if t[0] == "write" and len(t[1]) == 20 and t[1][:1] == b"\x00":
+                f = struct.unpack("!BB??HHHBBB", bytes(t[1][4:17]))
+                pf = rfb.PixelFormat(*f)
+        if pf not in ACCEPTED_PF:
+            ctx.violate("format-in-force", {"input": {"native_pixel_format": pf_name(native), "options": opts},
+                                            "observed": "after ServerInit the format in force (%s) is not one the client has a decoder mode for" % pf_name(pf),
+                                            "how": "real VNCDoToolClient on an in-memory transport"})
+            continue
+        ctx.count("native_accepted" if pf == native else "native_replaced_by_setpixelformat")
         sess = Session(pf)
         ref = Canvas()
         cursor_seen = False
